@@ -65,6 +65,12 @@ def make_items(tier, seed):
         ("def g(x: Qint[3]) -> Qint[3]:\n    return x ^ 5\n", 0),
         ("def g(x: Qint[3]) -> Qint[3]:\n    return x ^ 5\n", 6),
         ("def g(x: Tuple[bool, bool, bool]) -> bool:\n    return x[0] or x[1] or x[2]\n", False),
+        # user functions whose names may clash with the names the wrapper generates
+        ("def oracle(x: Qint[3]) -> Qint[3]:\n    return x ^ 5\n", 6),
+        ("def oracle(x: Qint[3]) -> bool:\n    return x == 5\n", True),
+        ("def oracle_outer(x: Qint[2]) -> Qint[2]:\n    return x + 1\n", 2),
+        ("def v(x: Qint[2]) -> Qint[2]:\n    return x + 1\n", 2),
+        ("def grover(v: Qint[2]) -> Qint[2]:\n    return v + 1\n", 0),
     ]
     for src, y in targets:
         items.append({"ob": "target", "src": src, "y": y})
@@ -389,5 +395,6 @@ def coverage(specs, results):
 
 
 if __name__ == "__main__":
+    qamp.selftest()
     boolq.selftest()
     sys.exit(main_for(sys.modules[__name__]))
